@@ -148,6 +148,14 @@ class Gen:
             vs = [(self.fresh("V"), r.random() < 0.5) for _ in range(r.randrange(1, 4))]
             self.enums.append((t, vs))
             return "enum", "enum %s { %s }" % (t, ", ".join(v + ("(Int)" if p else "") for v, p in vs))
+        if c < 0.24:
+            # non-ASCII text inside the request: byte offsets and character counts differ (seeded C11-2 cut the
+            # request span at input.chars().count() bytes); the value depends on the tail after the literal
+            x = self.fresh("x")
+            lit = r.choice(['"日本"', '"é"', '"😀x"', '"añb→"'])
+            src = "let %s = %s.len() + %s" % (x, lit, self.int_expr(1))
+            self.ints.append(x)
+            return "let", src
         if c < 0.38:
             x = self.fresh("x")
             src = "let %s = %s" % (x, self.int_expr())
